@@ -131,6 +131,31 @@ def _body(ctx, conv, shape, bounds, as_coords, layout, nan_cells=None, mesh_opts
                 oks.append(n in set(int(h) for h in hits))
                 oks.append(all(polygons[int(h)].intersects(polygons[n].representative_point()) for h in hits))
         ctx.check(all(oks), 'spatial index hits are linear indexes of the intersecting polygons')
+    # a lookup whose spatial-index hit is position n reports cell n - every n, the first one included
+    for n in range(N):
+        if polygons[n] is None:
+            continue
+        if ctx.symbolic:
+            cv.__dict__['strtree'] = _OneHit(geoms, n)
+            pt = geo.SymPoint(0, 0)
+        else:
+            if not (polygons[n].is_valid and polygons[n].area > 0):
+                continue
+            pt = polygons[n].representative_point()
+        item = cv.get_index_for_point(pt)
+        ctx.check(item is not None and int(item.linear_index) == n and tuple(item.index) == tuple(P.native(n))
+                  and item.polygon is polygons[n], 'a point lookup that hits position n reports cell n (linear index, native index, polygon)')
+    if ctx.symbolic:
+        cv.__dict__['strtree'] = tree
+
+
+class _OneHit:
+    """STRtree contract for a point inside exactly one cell: query(...) == [n]."""
+    def __init__(self, geometries, n):
+        self.geometries, self.n = geometries, n
+
+    def query(self, geometry, predicate=None, distance=None):
+        return numpy.array([self.n], dtype=numpy.intp)
 
 
 def cases(tier):
@@ -165,13 +190,21 @@ def cases(tier):
         yield Case(f'{conv}:{shape[0]}x{shape[1]}:{bounds}:{"coords" if as_coords else "vars"}:{layout}:nan{nm}', body,
                    dict(conv=conv, shape=shape, bounds=bounds, as_coords=as_coords, layout=layout, nan_cells=nan_cells),
                    patches=P, max_paths=5000, split=16)
-    meshes = ['tqp', 'tq'] if q else ['tqp', 'tq', 'fan', 'qqq']
+    # SHOC standard with the longitude variable of a grid stored (i, j) next to a latitude stored (j, i).
+    # (Not the node grid: the corner arrays of x_grid / y_grid are stacked as stored and a mixed layout is refused
+    # with a ValueError - an input the convention does not support, not a wrong answer.)
+    for kinds in ((('face',),) if q else (('face',), ('face', 'left', 'back'))):
+        for layout in ('plain', 'transposed'):
+            yield Case(f'shoc_standard:2x3:none:coords:{layout}:nan2:xT={"+".join(kinds)}', body,
+                       dict(conv='shoc_standard', shape=(2, 3), bounds='none', as_coords=True, layout=layout, nan_cells=((1, 1), (2, 3)),
+                            mesh_opts=dict(x_transposed=kinds)), patches=P, max_paths=5000, split=16)
+    meshes = ['tqp', 'tq', 'fan'] if q else ['tqp', 'tq', 'fan', 'qqq']
     for mesh in meshes:
         for mo in (dict(), dict(start_index=1, fill='attr', face_centres=True),
                    dict(transposed=True, supply=('edge_node',), face_centres=True)):
             if mesh in ('fan', 'qqq') and mo.get('fill') == 'attr':
                 mo = dict(mo, fill='none')
-            for layout in ('plain', 'extra_first', 'extra_last'):
+            for layout in (('plain',) if (q and mesh == 'fan') else ('plain', 'extra_first', 'extra_last')):
                 tag = '+'.join(f'{k}={v}' for k, v in mo.items()) or 'default'
                 yield Case(f'ugrid:{mesh}:{tag}:{layout}', body,
                            dict(conv='ugrid', shape=mesh, bounds='none', as_coords=False, layout=layout, mesh_opts=mo),
